@@ -273,7 +273,8 @@ func AddFunctionDecl(x *ast.FuncDecl, currentFile *core_domain.CodeContainer) (*
 
 func BuildReceiver(x *ast.FuncDecl, recv string) string {
 	for _, item := range x.Recv.List {
-		switch x := item.Type.(type) {
+		// the receiver type may be written in parentheses: (r (*T)), (r (T))
+		switch x := unparen(item.Type).(type) {
 		case *ast.StarExpr:
 			recv = getStarExprName(*x)
 		case *ast.Ident:
@@ -283,6 +284,16 @@ func BuildReceiver(x *ast.FuncDecl, recv string) string {
 		}
 	}
 	return recv
+}
+
+func unparen(expr ast.Expr) ast.Expr {
+	for {
+		paren, ok := expr.(*ast.ParenExpr)
+		if !ok {
+			return expr
+		}
+		expr = paren.X
+	}
 }
 
 func BuildExpr(expr ast.Expr) (string, string, string) {
